@@ -28,7 +28,7 @@ func (fx *FnCtx) mapInfo(t types.Type) *mapHeaps {
 		fx.fail("not a map type: %v", t)
 	}
 	var ks *Sort
-	if isStringType(mt.Key()) {
+	if isStringType(mt.Key()) || smallByteArray(mt.Key()) {
 		ks = tc.IdxSort()
 	} else {
 		kl := tc.Layout(mt.Key()).Leaves
@@ -105,7 +105,35 @@ func (fx *FnCtx) mapKey(mh *mapHeaps, k Value) *Term {
 	if isStringType(mh.mt.Key()) {
 		return fx.strKey(k)
 	}
+	if smallByteArray(mh.mt.Key()) {
+		// a key of type [n]byte, n <= 7: the number with those digits base 256
+		at := mh.mt.Key().Underlying().(*types.Array)
+		tc := fx.tc
+		var sum *Term = tc.IdxNum(0)
+		mul := int64(1)
+		for i := int64(0); i < at.Len(); i++ {
+			d := Select(k.L[0], tc.IdxNum(i))
+			if tc.Mode == ModeBV {
+				d = BVZeroExt(64-d.Sort.Width, d)
+				sum = bvBin("bvadd", sum, bvBin("bvmul", d, tc.IdxNum(mul)))
+			} else {
+				sum = IAdd(sum, IMul(d, IntNum(mul)))
+			}
+			mul *= 256
+		}
+		return sum
+	}
 	return k.L[0]
+}
+
+// smallByteArray: [n]byte (or an array of a named byte type) with n <= 7.
+func smallByteArray(t types.Type) bool {
+	at, ok := t.Underlying().(*types.Array)
+	if !ok || at.Len() > 7 {
+		return false
+	}
+	b, ok := at.Elem().Underlying().(*types.Basic)
+	return ok && b.Kind() == types.Uint8
 }
 
 func (fx *FnCtx) makeMap(st *State, pc *Term, t *ssa.MakeMap) Value {
@@ -317,7 +345,7 @@ func (fx *FnCtx) ghostHeap(st *State, name string) *Term {
 
 // keyFacts: a key of the map's key type lies in the range of that type (int mode).
 func (fx *FnCtx) keyFacts(mh *mapHeaps, k *Term) {
-	if isStringType(mh.mt.Key()) {
+	if isStringType(mh.mt.Key()) || smallByteArray(mh.mt.Key()) {
 		return
 	}
 	for _, f := range fx.tc.leafFacts(fx.tc.Layout(mh.mt.Key()).Leaves[0], k) {
